@@ -590,7 +590,19 @@ func (fr *frame) applyContract(d *Decl, callee *ssa.Function, sig *types.Signatu
 	for _, c := range d.Get("let") {
 		if i := strings.Index(c.Text, "="); i >= 0 {
 			if le, err := ParseExpr(c.Text[i+1:]); err == nil {
-				env.vars[strings.TrimSpace(c.Text[:i])] = env.tr(le)
+				// a let that speaks about names internal to the callee (a closure's captured variables) means nothing at
+				// a call site: it is skipped, and so are the clauses that use it (tryBool)
+				func() {
+					defer func() {
+						if r := recover(); r != nil {
+							if se, ok := r.(specErr); ok && strings.Contains(string(se), "unknown identifier") {
+								return
+							}
+							panic(r)
+						}
+					}()
+					env.vars[strings.TrimSpace(c.Text[:i])] = env.tr(le)
+				}()
 			}
 		}
 	}
